@@ -19,7 +19,7 @@ SeqToSet(s)  == {s[k] : k \in DOMAIN s}
 TokOK(tok, w, wl, icase) ==
   CASE tok.t = "lit"  -> IF icase THEN tok.wl = wl ELSE tok.w = w
     [] tok.t = "star" -> TRUE
-    [] tok.t = "set"  -> w \in SeqToSet(tok.S)
+    [] tok.t = "set"  -> w \in SeqToSet(tok.S) \/ (icase /\ wl \in SeqToSet(tok.S))      \* case folding applies to the sub-expression too
     [] OTHER          -> FALSE          \* tilde / more are legal in last position only
 
 Match(p, row, rowl, icase) ==
